@@ -29,6 +29,23 @@ def _is_async_ctor(b):
     return '{async' in ty or 'Coroutine' in ty or 'impl Future' in ty or 'impl core::future' in ty
 
 
+def _is_rank_function(b):
+    """one parameter, an integer result, and every assignment to the result is an integer constant chosen by the parameter's discriminant"""
+    if b.get('argc') != 1 or b['locals'][0]['ty'] not in ('u8', 'u16', 'u32', 'usize', 'i32', 'i8'):
+        return False
+    consts = 0
+    for blk in b['blocks']:
+        if blk['t'].get('k') == 'call':
+            return False
+        for st in blk['s']:
+            if st.get('k') == '=' and st['pl'].get('l') == 0 and not st['pl'].get('p'):
+                if st['rv'].get('k') == 'use' and st['rv']['op'].get('k') == 'c' and isinstance(st['rv']['op'].get('v'), int):
+                    consts += 1
+                else:
+                    return False
+    return consts >= 4
+
+
 def new_functions(F, known):
     out = set()
     for p, b in F.bodies.items():
@@ -36,6 +53,8 @@ def new_functions(F, known):
             continue
         if p in known or len(b['blocks']) > MAX_BLOCKS:
             continue
+        if _is_rank_function(b):
+            continue      # a variant -> number table is looked at as a function (the comparator rules evaluate it per variant)
         out.add(p)
     return out
 
